@@ -156,16 +156,21 @@ package storage
 //@   requires store_wf(s) && held[addr(s.refreshTokenRequestIDsMutex)] == 0 && held[addr(s.refreshTokensMutex)] == 0 && (forall m2 V :: held[m2] != 0 ==> mrank(m2) < 1)
 //@   modifies held, mapof(s.RefreshTokenRequestIDs), mapof(s.RefreshTokens)
 //@   ensures [C19.locks-released] held == old(held)
+//@   ensures [C04.store-refresh-table] err == nil && (signature in s.RefreshTokens) && s.RefreshTokens[signature].active && s.RefreshTokens[signature].Requester == req && (forall k string :: k != signature ==> (k in s.RefreshTokens) == old(k in s.RefreshTokens) && s.RefreshTokens[k].active == old(s.RefreshTokens[k].active) && s.RefreshTokens[k].Requester == old(s.RefreshTokens[k].Requester))
 
 //@ func (*MemoryStore).GetRefreshTokenSession
 //@   requires store_wf(s) && held[addr(s.refreshTokensMutex)] == 0 && (forall m2 V :: held[m2] != 0 ==> mrank(m2) < 2)
 //@   modifies held
 //@   ensures [C19.locks-released] held == old(held)
+//@   ensures [C04.store-refresh-table] err == nil ==> (signature in s.RefreshTokens) && s.RefreshTokens[signature].active && result != nil
+//@   ensures [C04.store-refresh-table] !(signature in s.RefreshTokens) ==> err != nil && eis(err, fosite.ErrNotFound) && result == nil
+//@   ensures [C04.store-refresh-table] (signature in s.RefreshTokens) && !s.RefreshTokens[signature].active ==> err != nil && eis(err, fosite.ErrInactiveToken) && result != nil
 
 //@ func (*MemoryStore).DeleteRefreshTokenSession
 //@   requires store_wf(s) && held[addr(s.refreshTokensMutex)] == 0 && (forall m2 V :: held[m2] != 0 ==> mrank(m2) < 2)
 //@   modifies held, mapof(s.RefreshTokens)
 //@   ensures [C19.locks-released] held == old(held)
+//@   ensures [C04.store-refresh-table] err == nil && !(signature in s.RefreshTokens) && (forall k string :: k != signature ==> (k in s.RefreshTokens) == old(k in s.RefreshTokens) && s.RefreshTokens[k].active == old(s.RefreshTokens[k].active))
 
 //@ func (*MemoryStore).Authenticate
 //@   requires store_wf(s) && held[addr(s.usersMutex)] == 0 && (forall m2 V :: held[m2] != 0 ==> mrank(m2) < 2)
@@ -176,6 +181,8 @@ package storage
 //@   requires store_wf(s) && held[addr(s.refreshTokenRequestIDsMutex)] == 0 && held[addr(s.refreshTokensMutex)] == 0 && (forall m2 V :: held[m2] != 0 ==> mrank(m2) < 1)
 //@   modifies held, mapof(s.RefreshTokens)
 //@   ensures [C19.locks-released] held == old(held)
+//@   ensures [C04.store-refresh-never-reactivated] forall k string :: (k in s.RefreshTokens) == old(k in s.RefreshTokens) && (!old(s.RefreshTokens[k].active) ==> !s.RefreshTokens[k].active) && s.RefreshTokens[k].Requester == old(s.RefreshTokens[k].Requester)
+//@   ensures [C04.store-revokes-indexed-refresh-token] err == nil && old(requestID in s.RefreshTokenRequestIDs) ==> !s.RefreshTokens[old(s.RefreshTokenRequestIDs[requestID])].active
 
 //@ func (*MemoryStore).RevokeAccessToken
 //@   requires store_wf(s) && held[addr(s.accessTokenRequestIDsMutex)] == 0 && held[addr(s.accessTokensMutex)] == 0 && (forall m2 V :: held[m2] != 0 ==> mrank(m2) < 1)
